@@ -7,6 +7,7 @@ CONSTANTS
   MaxTests = 1
   MaxTags = 1
   MaxTime = 0
+  MaxRuns = 1
 VIEW ViewNoHist
 INVARIANT WireWellFormed
 INVARIANT RoundTrip
